@@ -219,3 +219,70 @@ func runTree(c *Case) *Obs {
 	}
 	return o
 }
+
+func init() { components["treeconc"] = runTreeConc }
+
+// C01, last sentence: puts from several goroutines to distinct keys that are already present,
+// concurrent with reads of other keys. cfg: nkeys, writers, readers, rounds, mode.
+// Run under the race detector by the check; reports whether every put took effect.
+func runTreeConc(c *Case) *Obs {
+	nkeys, writers, readers, rounds := num(c.Cfg["nkeys"]), num(c.Cfg["writers"]), num(c.Cfg["readers"]), num(c.Cfg["rounds"])
+	m := tree.NewMap[int, int](func(a, b int) bool { return a < b })
+	for k := 0; k < nkeys; k++ {
+		m.Put(k, -1)
+	}
+	// keys k with k % (writers+1) == w belong to writer w; class `writers` is read-only
+	done := make(chan struct{})
+	bad := make(chan string, writers+readers)
+	for w := 0; w < writers; w++ {
+		w := w
+		go func() {
+			defer func() { done <- struct{}{} }()
+			for r := 0; r < rounds; r++ {
+				for k := w; k < nkeys; k += writers + 1 {
+					m.Put(k, r*1000000+k)
+				}
+			}
+		}()
+	}
+	for rd := 0; rd < readers; rd++ {
+		go func() {
+			defer func() { done <- struct{}{} }()
+			for r := 0; r < rounds; r++ {
+				for k := writers; k < nkeys; k += writers + 1 {
+					if v := m.Get(k); v != -1 {
+						bad <- "reader saw a changed value on a key nobody writes"
+						return
+					}
+					if !m.Contains(k) {
+						bad <- "reader lost a key"
+						return
+					}
+				}
+			}
+		}()
+	}
+	for i := 0; i < writers+readers; i++ {
+		<-done
+	}
+	o := &Obs{}
+	msg := ""
+	select {
+	case msg = <-bad:
+	default:
+	}
+	for k := 0; k < nkeys && msg == ""; k++ {
+		want := -1
+		if k%(writers+1) < writers && rounds > 0 {
+			want = (rounds-1)*1000000 + k
+		}
+		if m.Get(k) != want {
+			msg = "a put did not take effect"
+		}
+	}
+	if m.Len() != nkeys && msg == "" {
+		msg = "Len changed"
+	}
+	o.Obs = []any{[]any{"result", msg}}
+	return o
+}
